@@ -82,6 +82,12 @@ class Interp(Engine):
         if isinstance(k, KList):
             return z3.And(sv.term != 0, self.list_len(st, sv) > 0)
         if isinstance(k, KDict):
+            if not self.spec_mode:
+                # a dict's size is 0 exactly when it has no key (a fact about every real dict, stated where truthiness is asked)
+                hname, _, _ = self.dnames(k)
+                row = self.harr(st, hname)[sv.term]
+                kk = z3.Const("dt_k", sort_of(k.k))
+                st.assume(z3.Implies(sv.term != 0, (self.dict_size(st, sv) == 0) == qforall([kk], z3.Not(row[kk]), patterns=[row[kk]])), quantified=True)
             return z3.And(sv.term != 0, self.dict_size(st, sv) > 0)
         if isinstance(k, KSet):
             h, n = self.snames(k)
@@ -837,6 +843,24 @@ class Interp(Engine):
                 return self.spec_builtin(st, nm, node)
         if isinstance(fn, ast.Name) and fn.id == "cast" and len(node.args) == 2:
             return self.eval(st, node.args[1])     # typing.cast: identity, the type is not evaluated
+        # idiom `dict(sorted(d.items(), key=...))`: a fresh dict with exactly d's items (iteration order is not modelled, so
+        # re-ordering by key has no other effect)
+        if isinstance(fn, ast.Name) and fn.id == "dict" and "dict" not in self.frame(st).env and len(node.args) == 1 and not node.keywords:
+            a0 = node.args[0]
+            if isinstance(a0, ast.Call) and isinstance(a0.func, ast.Name) and a0.func.id == "sorted" and len(a0.args) == 1 \
+                    and all(k.arg == "key" for k in a0.keywords) and isinstance(a0.args[0], ast.Call) \
+                    and isinstance(a0.args[0].func, ast.Attribute) and a0.args[0].func.attr == "items" and not a0.args[0].args:
+                src = self.eval(st, a0.args[0].func.value)
+                if isinstance(src.kind, KOpt):
+                    src = self.coerce(st, src, src.kind.inner, node)
+                from . import lib
+                lib.USED.add("dict(sorted(d.items()))")
+                if src.kind is KConst and isinstance(src.const, EmptyLit):
+                    return src
+                if isinstance(src.kind, KDict):
+                    if not self.spec_mode:
+                        self.nonnull(st, src, node)
+                    return self.copy_dict(st, src)
         # logger / warnings: no-ops, arguments not evaluated (DESIGN 3.1)
         if isinstance(fn, ast.Attribute) and isinstance(fn.value, ast.Name) and fn.value.id in ("_logger", "logger", "warnings", "logging"):
             if fn.value.id not in self.frame(st).env:
@@ -922,7 +946,7 @@ class Interp(Engine):
     def call_repo_function(self, st, fi: FuncInfo, args, kwargs, node):
         c = self.reg.contracts.get(fi.key)
         top = st.frames[0] if st.frames else None
-        if c is None and top is not None and top.contract is not None and not self.spec_mode:
+        if top is not None and top.contract is not None and not self.spec_mode and len(st.frames) == 1:
             # a function that only has contract variants (per dispatch class): the calling contract names the variant its
             # call goes through (`call_variants={qualname: variant}`); the variant's declared parameter types are then
             # checked against the actual arguments like any contract's
